@@ -27,6 +27,8 @@ func runC31(w *World, r *Report) {
 	r.Rule("R-C31-3", "database store: caches.Add(AuthCache, …) is reachable only on the success edge of the database call whose result it records", 2)
 	r.Rule("R-C31-4", "sibling agreement: both ReadUser implementations produce errors.ErrNoSuchUser for a missing user; both ListUsers implementations mask suppressed passwords with the same constant", 3)
 
+	c31DirtyStoreIsWritten(w, r)
+
 	ap := w.pkg("internal/server/auth")
 	if ap == nil {
 		r.Anchor("R-C31-1", "package internal/server/auth")
